@@ -34,15 +34,15 @@ class Loops:
             if z3.is_int_value(ln):
                 return vals.valseq([V.StrV(simp(z3.SubString(s, j, 1))) for j in range(ln.as_long())])
             r = it.fresh('chars', vals.SeqVal)
-            it.assume(z3.Length(r) == z3.Length(s))
-            it.assume(z3.ForAll([i], z3.Implies(z3.And(0 <= i, i < z3.Length(s)),
+            it.assume_axiom(z3.Length(r) == z3.Length(s))
+            it.assume_axiom(z3.ForAll([i], z3.Implies(z3.And(0 <= i, i < z3.Length(s)),
                                                 r[i] == V.StrV(z3.SubString(s, i, 1)))))
             return r
         if k == 2:
             b = V.by(t)
             r = it.fresh('byts', vals.SeqVal)
-            it.assume(z3.Length(r) == z3.Length(b))
-            it.assume(z3.ForAll([i], z3.Implies(z3.And(0 <= i, i < z3.Length(b)), r[i] == V.IntV(b[i]))))
+            it.assume_axiom(z3.Length(r) == z3.Length(b))
+            it.assume_axiom(z3.ForAll([i], z3.Implies(z3.And(0 <= i, i < z3.Length(b)), r[i] == V.IntV(b[i]))))
             return r
         if k == 3:
             return simp(V.dkeys(t))
@@ -51,10 +51,10 @@ class Loops:
             r = it.fresh('selems', vals.SeqVal)
             kx = z3.String('k!it')
             j = z3.Int('j!it')
-            it.assume(z3.ForAll([i], z3.Implies(z3.And(0 <= i, i < z3.Length(r)),
+            it.assume_axiom(z3.ForAll([i], z3.Implies(z3.And(0 <= i, i < z3.Length(r)),
                                                 z3.And(V.is_StrV(r[i]), z3.Select(V.selems(t), V.s(r[i]))))))
-            it.assume(z3.ForAll([kx], z3.Implies(z3.Select(V.selems(t), kx), z3.Contains(r, z3.Unit(V.StrV(kx))))))
-            it.assume(z3.ForAll([i, j], z3.Implies(z3.And(0 <= i, i < j, j < z3.Length(r)), r[i] != r[j])))
+            it.assume_axiom(z3.ForAll([kx], z3.Implies(z3.Select(V.selems(t), kx), z3.Contains(r, z3.Unit(V.StrV(kx))))))
+            it.assume_axiom(z3.ForAll([i, j], z3.Implies(z3.And(0 <= i, i < j, j < z3.Length(r)), r[i] != r[j])))
             return r
         if it.feasible(V.is_ObjV(t)):
             if v.ty in self.world.classes and self.world.classes[v.ty].get('iter_field'):
@@ -75,8 +75,8 @@ class Loops:
             for l in lens[1:]:
                 n = z3.If(l < n, l, n)
             i = z3.Int('i!zip')
-            it.assume(z3.Length(r) == n)
-            it.assume(z3.ForAll([i], z3.Implies(z3.And(0 <= i, i < z3.Length(r)),
+            it.assume_axiom(z3.Length(r) == n)
+            it.assume_axiom(z3.ForAll([i], z3.Implies(z3.And(0 <= i, i < z3.Length(r)),
                                                 r[i] == V.TupleV(vals.valseq([s[i] for s in seqs])))))
             return r
         if v.kind == 'enumerate':
@@ -89,8 +89,8 @@ class Loops:
                 return vals.valseq([V.TupleV(vals.valseq([V.IntV(z3.IntVal(j)), simp(seq[j])])) for j in range(ln.as_long())])
             r = it.fresh('enum', vals.SeqVal)
             i = z3.Int('i!en')
-            it.assume(z3.Length(r) == z3.Length(seq))
-            it.assume(z3.ForAll([i], z3.Implies(z3.And(0 <= i, i < z3.Length(r)),
+            it.assume_axiom(z3.Length(r) == z3.Length(seq))
+            it.assume_axiom(z3.ForAll([i], z3.Implies(z3.And(0 <= i, i < z3.Length(r)),
                                                 r[i] == V.TupleV(vals.valseq([V.IntV(i), seq[i]])))))
             return r
         if v.kind == 'range':
@@ -103,8 +103,8 @@ class Loops:
                 return vals.valseq([V.IntV(z3.IntVal(j)) for j in range(lo.as_long(), hi.as_long())])
             r = it.fresh('range', vals.SeqVal)
             i = z3.Int('i!rg')
-            it.assume(z3.Length(r) == z3.If(hi > lo, hi - lo, 0))
-            it.assume(z3.ForAll([i], z3.Implies(z3.And(0 <= i, i < z3.Length(r)), r[i] == V.IntV(lo + i))))
+            it.assume_axiom(z3.Length(r) == z3.If(hi > lo, hi - lo, 0))
+            it.assume_axiom(z3.ForAll([i], z3.Implies(z3.And(0 <= i, i < z3.Length(r)), r[i] == V.IntV(lo + i))))
             return r
         if v.kind == 'dictitems':
             d = v.data.t
@@ -115,8 +115,8 @@ class Loops:
                                     for j in range(ln.as_long())])
             r = it.fresh('items', vals.SeqVal)
             i = z3.Int('i!di')
-            it.assume(z3.Length(r) == z3.Length(keys))
-            it.assume(z3.ForAll([i], z3.Implies(z3.And(0 <= i, i < z3.Length(r)),
+            it.assume_axiom(z3.Length(r) == z3.Length(keys))
+            it.assume_axiom(z3.ForAll([i], z3.Implies(z3.And(0 <= i, i < z3.Length(r)),
                                                 r[i] == V.TupleV(vals.valseq([keys[i], z3.Select(V.dmap(d), V.s(keys[i]))])))))
             return r
         if v.kind == 'dictvalues':
@@ -127,8 +127,8 @@ class Loops:
                 return vals.valseq([simp(z3.Select(V.dmap(d), V.s(keys[j]))) for j in range(ln.as_long())])
             r = it.fresh('dvals', vals.SeqVal)
             i = z3.Int('i!dv')
-            it.assume(z3.Length(r) == z3.Length(keys))
-            it.assume(z3.ForAll([i], z3.Implies(z3.And(0 <= i, i < z3.Length(r)),
+            it.assume_axiom(z3.Length(r) == z3.Length(keys))
+            it.assume_axiom(z3.ForAll([i], z3.Implies(z3.And(0 <= i, i < z3.Length(r)),
                                                 r[i] == z3.Select(V.dmap(d), V.s(keys[i])))))
             return r
         if v.kind == 'genexp':
@@ -141,10 +141,38 @@ class Loops:
                 return vals.valseq([simp(seq[j]) for j in reversed(range(ln.as_long()))])
             r = it.fresh('rev', vals.SeqVal)
             i = z3.Int('i!rv')
-            it.assume(z3.Length(r) == z3.Length(seq))
-            it.assume(z3.ForAll([i], z3.Implies(z3.And(0 <= i, i < z3.Length(r)), r[i] == seq[z3.Length(seq) - 1 - i])))
+            it.assume_axiom(z3.Length(r) == z3.Length(seq))
+            it.assume_axiom(z3.ForAll([i], z3.Implies(z3.And(0 <= i, i < z3.Length(r)), r[i] == seq[z3.Length(seq) - 1 - i])))
             return r
         raise Unsupported(f'iteration over {v}')
+
+    def iter_view(self, it, v):
+        """(length term, function index term -> element term) of what iteration over v yields;
+        zip / enumerate / dict.items() / range are viewed through their operands, no fresh sequence"""
+        if isinstance(v, PV):
+            if v.kind == 'zip':
+                views = [self.iter_view(it, a) for a in v.data]
+                n = views[0][0]
+                for ln, _ in views[1:]:
+                    n = z3.If(ln < n, ln, n)
+                return simp(n), (lambda i, views=views: V.TupleV(vals.valseq([f(i) for _, f in views])))
+            if v.kind == 'enumerate' and len(v.data) == 1:
+                ln, f = self.iter_view(it, v.data[0])
+                return ln, (lambda i, f=f: V.TupleV(vals.valseq([V.IntV(i), f(i)])))
+            if v.kind == 'dictitems':
+                d = v.data.t
+                keys = V.dkeys(d)
+                return simp(z3.Length(keys)), (lambda i: V.TupleV(vals.valseq([keys[i], z3.Select(V.dmap(d), V.s(keys[i]))])))
+            if v.kind == 'dictvalues':
+                d = v.data.t
+                keys = V.dkeys(d)
+                return simp(z3.Length(keys)), (lambda i: z3.Select(V.dmap(d), V.s(keys[i])))
+            if v.kind == 'range' and len(v.data) <= 2:
+                a = [O.ival(x.t) for x in v.data]
+                lo, hi = (z3.IntVal(0), a[0]) if len(a) == 1 else (a[0], a[1])
+                return simp(z3.If(hi > lo, hi - lo, 0)), (lambda i: V.IntV(lo + i))
+        seq = self.iter_seq(it, v)
+        return simp(z3.Length(seq)), (lambda i: vals.seq_at(seq, i))
 
     def elem_types(self, v):
         """static type info of the elements python iteration over v yields"""
@@ -275,9 +303,8 @@ class Loops:
 
     def _comprehension(self, it, node, gen, kind):
         itv = it.ev(gen.iter)
-        seq = self.iter_seq(it, itv)
+        ln, at = self.iter_view(it, itv)
         ety = self.elem_types(itv)
-        ln = simp(z3.Length(seq))
         isdict = isinstance(node, ast.DictComp)
         saved = dict(it.env)
 
@@ -294,46 +321,51 @@ class Loops:
             if z3.is_int_value(ln):
                 out = []
                 for j in range(ln.as_long()):
-                    r = elem(simp(seq[j]))
+                    r = elem(simp(at(z3.IntVal(j))))
                     if r is not None:
                         out.append(r)
                 return self.build(it, kind, out, isdict)
             if gen.ifs:
                 raise Unsupported(f'filtered comprehension over a sequence of symbolic length@{node.lineno}')
             idx = it.fresh('ci', IntS)
-            it.pc.append(z3.And(0 <= idx, idx < z3.Length(seq)))
+            rng = z3.And(0 <= idx, idx < ln)
+            it.pc.append(rng)
             try:
-                outcomes = self.sub_explore(it, lambda: elem(seq[idx]))
+                outcomes = self.sub_explore(it, lambda: elem(at(idx)))
             finally:
-                it.pc.pop()
+                # the range fact is the last entry unless learning rewrote the list
+                for j in range(len(it.pc) - 1, -1, -1):
+                    if it.pc[j].eq(rng):
+                        del it.pc[j]
+                        break
             if not outcomes:
                 # body infeasible for every index: the sequence must be empty
-                it.assume(z3.Length(seq) == 0)
+                it.assume(ln == 0)
                 return self.build(it, kind, [], isdict)
             normal = [o for o in outcomes if o[0] == 'val']
             excs = [o for o in outcomes if o[0] == 'exc']
             k = it.choose([z3.BoolVal(True)] * (1 + len(excs)), f'comp@{node.lineno}')
             if k > 0:
                 _, excv, pcs, fresh = excs[k - 1]
-                at = it.fresh('cx', IntS)
-                it.assume(z3.And(0 <= at, at < z3.Length(seq)))
-                terms = self.instantiate(it, pcs + [excv.t], fresh, idx, at)
+                at0 = it.fresh('cx', IntS)
+                it.assume(z3.And(0 <= at0, at0 < ln))
+                terms = self.instantiate(it, pcs + [excv.t], fresh, idx, at0)
                 for p in terms[:-1]:
                     it.assume(p)
                 raise PyRaise(SV(terms[-1], excv.ty))
             if not normal:
-                it.assume(z3.Length(seq) == 0)
+                it.assume(ln == 0)
                 return self.build(it, kind, [], isdict)
             b = z3.Int('b!ci%d' % it.counter)
             if isdict or kind == 'dictpairs':
-                return self.dict_summary(it, node, seq, idx, b, normal, isdict)
+                return self.dict_summary(it, node, None, idx, b, normal, isdict)
             r = it.fresh('comp', vals.SeqVal)
-            it.assume(z3.Length(r) == z3.Length(seq))
+            it.assume(z3.Length(r) == ln)
             disj = []
             for _, v, pcs, fresh in normal:
                 terms = self.skolemize(it, pcs + [it.as_val(v)], fresh, idx, b)
                 disj.append(z3.And(*terms[:-1], r[b] == terms[-1]))
-            it.assume(z3.ForAll([b], z3.Implies(z3.And(0 <= b, b < z3.Length(seq)), z3.Or(*disj))))
+            it.assume(z3.ForAll([b], z3.Implies(z3.And(0 <= b, b < ln), z3.Or(*disj))))
             rty = None
             tys = {v.ty for _, v, _, _ in normal if isinstance(v, SV)}
             if len(tys) == 1 and None not in tys:
@@ -414,14 +446,13 @@ class Loops:
             raise Unsupported('all/any with several generators')
         gen = node.generators[0]
         itv = it.ev(gen.iter)
-        seq = self.iter_seq(it, itv)
+        ln, at = self.iter_view(it, itv)
         ety = self.elem_types(itv)
-        ln = simp(z3.Length(seq))
         saved = dict(it.env)
         try:
             if z3.is_int_value(ln):
                 for j in range(ln.as_long()):
-                    it.assign(gen.target, SV(simp(seq[j]), ety))
+                    it.assign(gen.target, SV(simp(at(z3.IntVal(j))), ety))
                     skip = False
                     for c in gen.ifs:
                         if not it.truth(it.ev(c), 'all/any if'):
@@ -436,10 +467,11 @@ class Loops:
                         return SV(const(True))
                 return SV(const(is_all))
             idx = it.fresh('qi', IntS)
-            it.pc.append(z3.And(0 <= idx, idx < z3.Length(seq)))
+            rng0 = z3.And(0 <= idx, idx < ln)
+            it.pc.append(rng0)
 
             def elem():
-                it.assign(gen.target, SV(seq[idx], ety))
+                it.assign(gen.target, SV(at(idx), ety))
                 guard = z3.BoolVal(True)
                 for c in gen.ifs:
                     guard = z3.And(guard, self.world.ops.truthy(it, it.ev(c)))
@@ -449,7 +481,10 @@ class Loops:
             try:
                 outcomes = self.sub_explore(it, elem)
             finally:
-                it.pc.pop()
+                for j in range(len(it.pc) - 1, -1, -1):
+                    if it.pc[j].eq(rng0):
+                        del it.pc[j]
+                        break
             if any(o[0] == 'exc' for o in outcomes):
                 raise Unsupported(f'element test of all/any may raise@{node.lineno}')
             b = z3.Int('b!q%d' % it.counter)
@@ -460,7 +495,7 @@ class Loops:
                     raise Unsupported('quantified spec body introduces fresh values')
                 terms = self.skolemize(it, pcs + [V.b(v.t)], fresh, idx, b)
                 disj.append(z3.And(*terms))
-            rng = z3.And(0 <= b, b < z3.Length(seq))
+            rng = z3.And(0 <= b, b < ln)
             if is_all:
                 # for every index some path applies and its test holds
                 body = z3.Or(*disj) if disj else z3.BoolVal(False)
